@@ -67,10 +67,11 @@ def is_sym(x):
 
 
 class SymBool(object):
-    __slots__ = ('e',)
+    __slots__ = ('e', 'lin')
 
-    def __init__(self, e):
+    def __init__(self, e, lin=None):
         self.e = e
+        self.lin = lin
 
     def __bool__(self):
         return cur().branch(self.e)
@@ -141,17 +142,49 @@ class SymBool(object):
 
 
 def mkbool(e):
-    """z3 Bool -> python bool if trivially constant else SymBool"""
+    """z3 Bool -> python bool if trivially constant else SymBool.  Only cheap structural checks here: a full
+    z3.simplify of every comparison dominated run time on large terms (the solver simplifies anyway)."""
     if z3.is_true(e):
         return True
     if z3.is_false(e):
         return False
-    s = z3.simplify(e)
-    if z3.is_true(s):
-        return True
-    if z3.is_false(s):
-        return False
-    return SymBool(s)
+    if z3.is_eq(e):
+        a, b = e.arg(0), e.arg(1)
+        if a.eq(b):
+            return True
+        if (z3.is_bv_value(a) and z3.is_bv_value(b)) or (z3.is_int_value(a) and z3.is_int_value(b)):
+            return a.as_long() == b.as_long()
+    elif z3.is_distinct(e) and e.num_args() == 2:
+        a, b = e.arg(0), e.arg(1)
+        if a.eq(b):
+            return False
+        if (z3.is_bv_value(a) and z3.is_bv_value(b)) or (z3.is_int_value(a) and z3.is_int_value(b)):
+            return a.as_long() != b.as_long()
+    elif z3.is_and(e) or z3.is_or(e):
+        # drop constant children cheaply
+        kids = e.children()
+        isand = z3.is_and(e)
+        keep = []
+        for k in kids:
+            if z3.is_true(k):
+                if not isand:
+                    return True
+            elif z3.is_false(k):
+                if isand:
+                    return False
+            else:
+                keep.append(k)
+        if not keep:
+            return isand
+        if len(keep) != len(kids):
+            e = keep[0] if len(keep) == 1 else (z3.And(*keep) if isand else z3.Or(*keep))
+    elif z3.is_not(e):
+        k = e.arg(0)
+        if z3.is_true(k):
+            return False
+        if z3.is_false(k):
+            return True
+    return SymBool(e)
 
 
 def bexpr(x):
@@ -191,7 +224,16 @@ def s_ite(c, a, b):
     if isinstance(a, (int, SymInt, SymBool)) and isinstance(b, (int, SymInt, SymBool)):
         a = a.as_int() if isinstance(a, SymBool) else a
         b = b.as_int() if isinstance(b, SymBool) else b
-        return SymInt._ite(ce, a, b)
+        r = SymInt._ite(ce, a, b)
+        cf = c.lin if isinstance(c, SymBool) else (c.lin[0] if (c.lin is not None and c.hi is not None and c.hi <= 1) else None)
+        if cf is not None and isinstance(r, SymInt) and not r.lia and type(a) is int and type(b) is int and a >= 0 and b >= 0:
+            # bit j = b_j XOR cond*(a_j XOR b_j)
+            out = []
+            for j in range(max(1, a.bit_length(), b.bit_length())):
+                aj, bj = (a >> j) & 1, (b >> j) & 1
+                out.append((bj, frozenset()) if aj == bj else (bj ^ cf[0], cf[1]))
+            r.lin = out
+        return r
     raise EngineLeak("s_ite on non-int values %r %r" % (type(a), type(b)))
 
 
@@ -206,14 +248,15 @@ class SymInt(object):
               (and lo >= 0), else the two's complement reading.  [lo,hi] is a sound interval.
     LIA mode: e is a z3 Int term; lo/hi may be None (unknown).
     """
-    __slots__ = ('e', 'lo', 'hi', 'signed', 'tag')
+    __slots__ = ('e', 'lo', 'hi', 'signed', 'tag', 'lin')
 
-    def __init__(self, e, lo, hi, signed, tag=None):
+    def __init__(self, e, lo, hi, signed, tag=None, lin=None):
         self.e = e
         self.lo = lo
         self.hi = hi
         self.signed = signed
         self.tag = tag
+        self.lin = lin      # optional GF(2)-affine normal form, see gf2_* below
 
     # -- construction helpers ---------------------------------------------------------
     @property
@@ -733,6 +776,17 @@ def _divmod(a, b):
 
 
 def _shift(op, a, b):
+    r = _shift0(op, a, b)
+    if isinstance(r, SymInt) and not r.lia and isinstance(a, SymInt) and a.lin is not None and not isinstance(b, SymInt) \
+            and r.lo is not None and r.lo >= 0:
+        if op == '<<':
+            r.lin = _gf2_trim([_Z] * b + list(a.lin), r.hi)
+        else:
+            r.lin = _gf2_trim(list(a.lin[b:]) or [_Z], r.hi)
+    return r
+
+
+def _shift0(op, a, b):
     if not isinstance(a, SymInt) and not isinstance(b, SymInt):
         return a << b if op == '<<' else a >> b
     if isinstance(b, SymInt):
@@ -768,7 +822,101 @@ def _shift(op, a, b):
     return SymInt.from_bv(e, lo, hi, True)
 
 
+# ------------------------------------------------------------------------------------------
+# GF(2)-affine normal forms.  A non-negative BV SymInt may carry `lin`: a list (LSB first) of bit forms
+# (const, frozenset(atoms)) meaning  const XOR (XOR of atoms).  XOR / shifts / masks / disjoint OR / ite(bit, c, 0)
+# keep the form; equalities between such values are then decided syntactically (exact: the forms are the values).
+# This is what makes checksum identities (parity-hard for a SAT solver) trivial.
+
+_Z = (0, frozenset())
+LIN_MAX_BITS = 64
+
+
+def gf2_var(name, nbits):
+    return [(0, frozenset([(name, i)])) for i in range(nbits)]
+
+
+def gf2_of(x):
+    """bit forms of an int-like value or None"""
+    if isinstance(x, SymInt):
+        return x.lin
+    if isinstance(x, bool):
+        x = int(x)
+    if isinstance(x, int) and x >= 0:
+        return [((x >> i) & 1, frozenset()) for i in range(max(1, x.bit_length()))]
+    return None
+
+
+def _gf2_bit(f, i):
+    return f[i] if i < len(f) else _Z
+
+
+def _gf2_xor1(p, q):
+    return (p[0] ^ q[0], p[1] ^ q[1])
+
+
+def gf2_xor(fa, fb):
+    n = max(len(fa), len(fb))
+    return [_gf2_xor1(_gf2_bit(fa, i), _gf2_bit(fb, i)) for i in range(n)]
+
+
+def _gf2_trim(f, hi):
+    n = max(1, hi.bit_length())
+    return f[:n] if len(f) > n else f
+
+
+def _gf2_const_value(f):
+    v = 0
+    for i, (c, atoms) in enumerate(f):
+        if atoms:
+            return None
+        v |= c << i
+    return v
+
+
 def _bitop(op, a, b):
+    r = _bitop0(op, a, b)
+    if isinstance(r, SymInt) and not r.lia and r.lo is not None and r.lo >= 0:
+        fa, fb = gf2_of(a), gf2_of(b)
+        if fa is not None and fb is not None and max(len(fa), len(fb)) <= LIN_MAX_BITS * 8:
+            if op == '^':
+                r.lin = _gf2_trim(gf2_xor(fa, fb), r.hi)
+            elif op == '&':
+                out = []
+                okk = True
+                for i in range(max(len(fa), len(fb))):
+                    p, q = _gf2_bit(fa, i), _gf2_bit(fb, i)
+                    if not p[1] and p[0] == 0 or not q[1] and q[0] == 0:
+                        out.append(_Z)
+                    elif not p[1] and p[0] == 1:
+                        out.append(q)
+                    elif not q[1] and q[0] == 1:
+                        out.append(p)
+                    else:
+                        okk = False
+                        break
+                if okk:
+                    r.lin = _gf2_trim(out, r.hi)
+            elif op == '|':
+                out = []
+                okk = True
+                for i in range(max(len(fa), len(fb))):
+                    p, q = _gf2_bit(fa, i), _gf2_bit(fb, i)
+                    if p == _Z:
+                        out.append(q)
+                    elif q == _Z:
+                        out.append(p)
+                    elif (not p[1] and p[0] == 1) or (not q[1] and q[0] == 1):
+                        out.append((1, frozenset()))
+                    else:
+                        okk = False
+                        break
+                if okk:
+                    r.lin = _gf2_trim(out, r.hi)
+    return r
+
+
+def _bitop0(op, a, b):
     if not isinstance(a, SymInt) and not isinstance(b, SymInt):
         return {'&': a & b, '|': a | b, '^': a ^ b}[op]
     if _is_lia(a, b):
@@ -833,6 +981,26 @@ def _cmp(op, a, b):
             r = False if k < 0 else _cmp('==', tb[2], k)
         if r is not None:
             return r if op == '==' else s_not(r)
+        fa, fb = gf2_of(a), gf2_of(b)
+        if fa is not None and fb is not None:
+            x = gf2_xor(fa, fb)
+            undecided = [f for f in x if f[1]]
+            if any((not f[1]) and f[0] == 1 for f in x):
+                return op == '!='          # some bit differs for every assignment
+            if not undecided:
+                return op == '=='          # identical for every assignment
+            if len(undecided) == 1:
+                # equality depends on a single affine bit: keep its form on the SymBool (used by ite merging)
+                res = _cmp_plain(op, a, b)
+                if isinstance(res, SymBool):
+                    f = undecided[0]
+                    # a == b  <=>  that bit is 0
+                    res.lin = (f[0] ^ 1, f[1]) if op == '==' else (f[0], f[1])
+                return res
+    return _cmp_plain(op, a, b)
+
+
+def _cmp_plain(op, a, b):
     al, ah, bl, bh = _lo(a), _hi(a), _lo(b), _hi(b)
     if None not in (al, ah, bl, bh):
         if op == '<':
@@ -1047,7 +1215,7 @@ class Explorer(object):
                 if r == z3.unknown:
                     s2 = z3.Solver()
                     s2.set('timeout', self.query_timeout_ms)
-                    s2.add(self.solver.assertions())
+                    s2.add(self.asserted)
                     if extra is not None:
                         s2.add(extra)
                     self.stats.queries += 1
@@ -1074,7 +1242,7 @@ class Explorer(object):
         import tempfile
         import os
         s2 = z3.Solver()
-        s2.add(self.solver.assertions())
+        s2.add(self.asserted)
         if extra is not None:
             s2.add(extra)
         consts = {}
@@ -1128,7 +1296,7 @@ class Explorer(object):
         t = time.time()
         s2 = z3.SolverFor('QF_LIA')
         s2.set('timeout', min(self.query_timeout_ms, 30000))
-        for a in self.solver.assertions():
+        for a in self.asserted:
             if _pure_lia(a):
                 s2.add(a)
         s2.add(z3.Not(goal))
@@ -1149,6 +1317,12 @@ class Explorer(object):
         return self.model
 
     def add(self, e):
+        self._assert(e)
+
+    def _assert(self, e):
+        """every path-condition conjunct goes through here: the Python-side list is the authoritative copy
+        (z3's Solver.assertions() returns a preprocessed set that may have eliminated variables)"""
+        self.asserted.append(e)
         self.solver.add(e)
 
     def fresh_name(self, base):
@@ -1178,7 +1352,7 @@ class Explorer(object):
             if not isinstance(d, bool):
                 raise EngineLeak("decision prefix misaligned at a branch (non-deterministic harness?)")
             self.pos += 1
-            self.solver.add(cond if d else z3.Not(cond))
+            self._assert(cond if d else z3.Not(cond))
             self.model = None
             self.bcache[key] = (d != neg, base)
             return d
@@ -1188,7 +1362,7 @@ class Explorer(object):
         r = self._check(other)
         if r == z3.sat:
             self.pending.append(self.prefix[:i] + [not v])
-            self.solver.add(cond if v else z3.Not(cond))
+            self._assert(cond if v else z3.Not(cond))
         # every non-trivial, non-memoised branch call records one decision so that replay stays aligned
         self.prefix.append(v)
         self.pos += 1
@@ -1211,7 +1385,7 @@ class Explorer(object):
                 v, taken = ent[1], ent[2]
                 c = self._eqv(x, v)
                 self.pos += 1
-                self.solver.add(c if taken else z3.Not(c))
+                self._assert(c if taken else z3.Not(c))
                 self.model = None
                 if taken:
                     return v
@@ -1228,7 +1402,7 @@ class Explorer(object):
             r = self._check(z3.Not(c))
             if r == z3.sat:
                 self.pending.append(self.prefix[:i] + [('v', v, False)])
-                self.solver.add(c)
+                self._assert(c)
             self.prefix.append(('v', v, True))
             self.pos += 1
             n += 1
@@ -1249,7 +1423,7 @@ class Explorer(object):
     # -- harness API (also see ctx.py) --------------------------------------------------
     def assume(self, c):
         if isinstance(c, (SymBool, SymInt)):
-            self.solver.add(bexpr(c))
+            self._assert(bexpr(c))
             self.model = None
             if self._check() != z3.sat:
                 raise PathAbort()
@@ -1320,6 +1494,7 @@ class Explorer(object):
 
     def _one_path(self, pre):
         self.solver = z3.Solver()
+        self.asserted = []
         self.prefix = list(pre)
         self.pos = 0
         self.model = None
